@@ -272,7 +272,7 @@ def run(ctx, case):
                             dict(queries=qs), dict(n_changes=len(changes)))
                 back = None
             if back is not None:
-                from rv.monitors.timing import expected_positions
+                from rv.monitors.timing import GRID_EPS, expected_positions
 
                 div = tuple(case["divisions"]) if case.get("divisions") else rt.DEFAULT_DIVISIONS
                 max_den = max(div)
@@ -282,7 +282,8 @@ def run(ctx, case):
                     slow = max(float(truth.beat_len_at_ms(t)),
                                float(truth.beat_len_at_ms(F(u))) if F(u) >= truth.ms[0] else 0.0,
                                float(truth.beat_len_at_ms(max(truth.ms[0], F(t) - 1))))
-                    ok = any(abs(t - u) <= float(tol) * slow + 1e-6 + 1e-9 * abs(t) for _, _, tol in alts)
+                    # a time counts as "on the grid" within GRID_EPS beats of a grid point: it may come back as that grid point
+                    ok = any(abs(t - u) <= float(tol + GRID_EPS) * slow + 1e-6 + 1e-9 * abs(t) for _, _, tol in alts)
                     clause = "on_grid_identity" if kind == "on" else "off_grid_within_step"
                     if not ok:
                         ctx.violate("C10", "c10.roundtrip", clause,
